@@ -1,6 +1,7 @@
 """Static descriptions used in the evidence files."""
 LEVELS = {
     "C04": "proof",
+    "C02": "proof",
 }
 EXPLAIN = {}
 TRUSTED = [
